@@ -386,6 +386,8 @@ def task(item):
     if item[0] == 'isolated':
         from checks import c10
         return c10.isolated_default_task(item)
+    if item[0] == 'tag-default':
+        return tag_default_task(item)
     model, trace, pname, flags, depth = item
     specs = render.render(model)
     out = impl.compile_specs(specs)
@@ -454,6 +456,9 @@ def run(tier, seed):
         kinds_seen.add(t.kind)
         for how in ('direct', 'local-alias', 'imported-alias', 'alias-chain-over-three-namespaces'):
             hazards.append(('isolated', t, lits[0], how))
+    tds = tag_default_items()
+    r.bounds['tag_default_modules'] = len(tds)
+    hazards += tds
     r.run_tasks(task, list(states) + hazards, budget=300, chunksize=8)
     r.assumptions = ['identifiers of the explored models are already in the case style of the generated names (name styles: see DESIGN)',
                      'representation of tag-reference and timestamp route attributes in generated code is not judged']
@@ -461,8 +466,81 @@ def run(tier, seed):
              'fresh interpreter for the multi-namespace models up to the stated depth) and reflected against the model')
 
 
+# a struct field whose default is a void tag: {struct name before / after the union's name} x {union here, imported} x {typed directly,
+# through an alias whose name sorts first / last} x {own tag, tag inherited from a parent union} x {holder is a plain struct, a child struct}
+TAG_DEFAULT_NAMES = [('Box', 'Zoom'), ('Zoom', 'Box')]
+
+
+def tag_default_items():
+    out = []
+    for sname, uname in TAG_DEFAULT_NAMES:
+        for where in ('local', 'imported'):
+            for via in ('direct', 'alias-first', 'alias-last'):
+                for tag in ('fit', 'base'):
+                    for holder in ('plain', 'child'):
+                        out.append(('tag-default', sname, uname, where, via, tag, holder))
+    return out
+
+
+def tag_default_specs(item):
+    _, sname, uname, where, via, tag, holder = item
+    udef = 'union %sRoot\n    base\n    other_one String\n\nunion %s extends %sRoot\n    fit\n    fill String\n' % (uname, uname, uname)
+    q = 'far.' if where == 'imported' else ''
+    ref = q + uname
+    alias = ''
+    if via != 'direct':
+        an = 'Aaa' if via == 'alias-first' else 'Zzz'
+        alias = 'alias %s = %s\n\n' % (an, ref)
+        ref = an
+    sdef = 'struct %s\n    late %s = %s\n    n Int32 = 3\n' % (sname, ref, tag)
+    if holder == 'child':
+        sdef = 'struct %sP\n    late %s = %s\n\nstruct %s extends %sP\n    own %s = %s\n' % (sname, ref, tag, sname, sname, ref, tag)
+    if where == 'imported':
+        return [('far.stone', 'namespace far\n\n' + udef), ('iso.stone', 'namespace iso\n\nimport far\n\n' + alias + sdef)]
+    return [('iso.stone', 'namespace iso\n\n' + alias + sdef + '\n' + udef)]
+
+
+def tag_default_task(item):
+    _, sname, uname, where, via, tag, holder = item
+    specs = tag_default_specs(item)
+    inputs = {'specs': specs, 'struct': sname, 'union': uname, 'where': where, 'via': via, 'tag': tag, 'holder': holder}
+    out = impl.compile_specs(specs)
+    if out.kind != 'ok':
+        raise explore.InternalError('tag-default spec is not accepted: %s' % out.brief())
+    pkg, fail = impl.build_python_package(out.api)
+    if pkg is None:
+        return {'outcome': 'tag-default:generate-failed', 'viol': [viol('tag-default:generate:%s' % fail.identity, 'python_types fails: %s' % fail.identity, inputs, fail.tb)], 'n': 1}
+    v = []
+    try:
+        try:
+            iso = pkg.mod('iso')
+            ucls = getattr(pkg.mod('far' if where == 'imported' else 'iso'), uname)
+            inst = getattr(iso, sname)()
+            for fname in ['late'] + (['own'] if holder == 'child' else []):
+                got = getattr(inst, fname)
+                if not isinstance(got, pkg.bb.Union) or getattr(got, '_tag', None) != tag or not issubclass(ucls, type(got)):
+                    v.append(viol('tag-default:value:%s:%s' % ('struct-first' if sname < uname else 'union-first', 'inherited-field' if fname == 'late' and holder == 'child' else 'own-field'),
+                                  'unset field %s.%s (default %s of %s, %s, %s) reads %r' % (sname, fname, tag, uname, where, via, got), inputs))
+                setattr(inst, fname, got)
+                delattr(inst, fname)
+                if getattr(inst, fname) != got:
+                    v.append(viol('tag-default:after-delete', 'after del, %s.%s reads %r' % (sname, fname, getattr(inst, fname)), inputs))
+        except Exception as e:  # noqa
+            v.append(viol('tag-default:%s' % impl.import_error_identity(e), 'module with a tag default (%s): %r' % (item[1:], e), inputs))
+    finally:
+        pkg.close()
+    return {'outcome': 'tag-default:ok' if not v else 'tag-default:violation', 'viol': v, 'n': 1}
+
+
 def replay(rep):
     specs = [tuple(x) for x in rep['inputs']['specs']]
+    if rep['identity'].startswith('tag-default:') and 'holder' in rep['inputs']:
+        i = rep['inputs']
+        out = tag_default_task(('tag-default', i['struct'], i['union'], i['where'], i['via'], i['tag'], i['holder']))
+        if out['viol']:
+            print('VIOLATION property=%s replay=replayed' % PROP)
+            return 1
+        return 0
     out = impl.compile_specs(specs)
     if out.kind != 'ok':
         return 0
